@@ -536,7 +536,7 @@ func runC18(c *lib.Ctx) {
 	for i := 0; i < c.Scale(600, 60000); i++ {
 		twice = append(twice, r.randomTwiceCase())
 	}
-	for i := 0; i < c.Scale(1200, 150000); i++ {
+	for i := 0; i < c.Scale(1200, 60000); i++ {
 		alias = append(alias, &c18Case{Family: "alias"})
 	}
 	marker := func(name string) *c18Case { return &c18Case{Family: "config", Cell: "after-" + name, Sweep: true} }
